@@ -145,3 +145,143 @@ def rank(v):
     dev = (1, 0) if v.dev is None else (0, v.dev)
     loc = (0, ()) if v.local is None else (1, tuple((1, x, "") if isinstance(x, int) else (0, 0, x) for x in v.local))
     return (v.epoch, tuple(rel), pre, post, dev, loc)
+
+
+# ---- wider generators (improvement round; additive: nothing above this line changed) --------------------------------------------
+# all 29 code points that \s matches in a str pattern (the (?a:...) group of Version._regex does not cover the surrounding \s*)
+WS_ALL = [chr(c) for c in (9, 10, 11, 12, 13, 28, 29, 30, 31, 32, 133, 160, 5760, 8192, 8193, 8194, 8195, 8196, 8197, 8198, 8199,
+                           8200, 8201, 8202, 8232, 8233, 8239, 8287, 12288)]
+BIG_WIDE = BIG + [2 ** 61 - 1, 2 ** 61, 2 * (2 ** 61 - 1), 10 ** 40, 10 ** 100 + 1, 2 ** 128, 9 * 10 ** 59]
+ALNUM36 = "0123456789abcdefghijklmnopqrstuvwxyz"
+
+
+def rand_ws(rng, p_empty=0.5):
+    if rng.random() < p_empty: return ""
+    return "".join(rng.choice(WS_ALL) for _ in range(rng.choice([1, 1, 2, 3])))
+
+
+def rand_num_wide(rng, n, allow_implicit, max_zeros=50):
+    if n == 0 and allow_implicit and rng.random() < 0.5: return ""
+    z = rng.choice([0, 0, 0, 1, 2, 3, 7, 20, max_zeros]) if rng.random() < 0.5 else rng.randrange(max_zeros + 1)
+    return ("0" * z) + str(n)
+
+
+HUGE = [10 ** 1000 + 3, 10 ** 1000 + 4, 7 * 10 ** 1100]      # ~1000 digits (the extracted model needs ~0.1 s for each; 4000 digits: seconds)
+HUGE4K = [10 ** 4000 + 3, 10 ** 4000 + 4, 7 * 10 ** 4100]   # with a zero run of 50 still below CPython's 4300-digit int() limit; thorough tier only
+
+
+def wide_int(rng):
+    k = rng.random()
+    if k < 0.002: return rng.choice(HUGE)
+    if k < 0.55: return rng.choice(SMALL)
+    if k < 0.75: return rng.choice(BIG_WIDE)
+    if k < 0.9: return rng.randrange(10 ** rng.choice([1, 2, 5, 12, 19, 20, 30]))
+    return rng.choice(BIG_WIDE) + rng.choice([-1, 1])
+
+
+def rand_local_seg(rng):
+    """one local segment: an int (small / big) or a random lower-case alphanumeric token of length 1..4 (never all digits)"""
+    k = rng.random()
+    if k < 0.25: return wide_int(rng)
+    if k < 0.4: return rng.choice(LOCAL_SEGS)
+    s = "".join(rng.choice(ALNUM36) for _ in range(rng.choice([1, 1, 2, 3, 4])))
+    return int(s) if s.isdigit() else s
+
+
+def perturb_seg(rng, x):
+    """a near miss of a local segment: int +-1 / int <-> token, one character changed / appended / dropped"""
+    if isinstance(x, int):
+        return rng.choice([x + 1, max(0, x - 1), str(x) + rng.choice("abz"), rng.choice("az") + str(x)])
+    k = rng.randrange(3); i = rng.randrange(len(x))
+    if k == 0: y = x[:i] + rng.choice(ALNUM36) + x[i + 1:]
+    elif k == 1: y = x + rng.choice(ALNUM36)
+    else: y = x[:i] + x[i + 1:]
+    if not y: y = rng.choice("az")
+    return int(y) if y.isdigit() else y
+
+
+def rand_v_wide(rng, local_p=0.4):
+    """like rand_v, but: big epochs, releases of up to 40 components, big numbers everywhere, random alphanumeric and big numeric local
+    segments, up to 8 of them"""
+    n = rng.choice([1, 1, 2, 2, 3, 3, 4, 6, 8, 12, 12, 40])
+    rel = tuple(wide_int(rng) if rng.random() < (0.9 if n <= 8 else 0.3) else 0 for _ in range(n))
+    pre = rng.choice([None, None, ("a", wide_int(rng)), ("b", wide_int(rng)), ("rc", wide_int(rng))])
+    post = rng.choice([None, None, wide_int(rng)])
+    dev = rng.choice([None, None, wide_int(rng)])
+    loc = None
+    if rng.random() < local_p:
+        loc = tuple(rand_local_seg(rng) for _ in range(rng.choice([1, 1, 2, 3, 4, 5, 8])))
+    ep = rng.choice([0, 0, 0, 1, 2, 3, 4, 7]) if rng.random() < 0.8 else rng.choice(BIG_WIDE)
+    return V(ep, rel, pre, post, dev, loc)
+
+
+def neighbours_wide(rng, v):
+    """order neighbours that the narrow `neighbours` cannot reach: perturbed local segments, prefix / extension of the local label,
+    a bump deep inside a long release, long zero tails, epoch +-1"""
+    out = []
+    if v.local is not None:
+        l = list(v.local); i = rng.randrange(len(l))
+        out.append(replace(v, local=tuple(l[:i] + [perturb_seg(rng, l[i])] + l[i + 1:])))
+        out.append(replace(v, local=tuple(l + [rand_local_seg(rng)])))
+        if len(l) > 1: out.append(replace(v, local=tuple(l[:-1])))
+        out.append(replace(v, local=tuple(l[:i] + [perturb_seg(rng, l[i])])))
+        for _ in range(2):      # another segment of any kind in the same position: small vs big integers, integer vs token
+            out.append(replace(v, local=tuple(l[:i] + [rand_local_seg(rng)] + l[i + 1:])))
+        out.append(replace(v, local=tuple(l[:i] + [rng.choice(BIG_WIDE)] + l[i + 1:])))
+    else:
+        out.append(replace(v, local=(rand_local_seg(rng),)))
+    r = list(v.release); i = rng.randrange(len(r)); r[i] += 1
+    out.append(replace(v, release=tuple(r)))
+    out.append(replace(v, release=v.release + (0,) * rng.choice([1, 5, 30])))
+    out.append(replace(v, release=v.release + (0,) * rng.choice([1, 5, 30]) + (1,)))
+    out.append(replace(v, epoch=v.epoch + 1))
+    if v.epoch: out.append(replace(v, epoch=v.epoch - 1))
+    if v.pre: out.append(replace(v, pre=(v.pre[0], v.pre[1] + 1)))
+    if v.post is not None: out.append(replace(v, post=v.post + 1, dev=None)); out.append(replace(v, dev=0))
+    if v.dev is not None: out.append(replace(v, dev=v.dev + 1)); out.append(replace(v, dev=None))
+    else: out.append(replace(v, dev=rng.choice([0, 1, 2 ** 64])))
+    if v.post is None: out.append(replace(v, post=rng.choice([0, 1, 2 ** 64])))
+    return [fix_local(x) for x in out]
+
+
+def spell_wide(rng, v, ws=True, vprefix=True, max_zeros=50):
+    """`spell` with zero runs of up to max_zeros, surrounding whitespace drawn from all 29 \\s code points, and every word alternative"""
+    num = lambda n, imp: rand_num_wide(rng, n, imp, max_zeros)
+    s = rand_ws(rng) if ws else ""
+    if vprefix: s += rng.choice(["", "", "", "v", "V"])
+    if v.epoch or rng.random() < 0.1: s += num(v.epoch, False) + "!"
+    s += ".".join(num(x, False) for x in v.release)
+    if v.pre:
+        l, n = v.pre
+        w = rng.choice({"a": ["a", "alpha"], "b": ["b", "beta"], "rc": ["rc", "c", "pre", "preview"]}[l])
+        s += rng.choice(SEPS) + rand_case(rng, w) + rng.choice(SEPS) + num(n, True)
+    if v.post is not None:
+        if rng.random() < 0.25 and not (v.pre and s[-1].isalpha()):
+            s += "-" + num(v.post, False)
+        else:
+            w = rng.choice(["post", "rev", "r"])
+            s += rng.choice(SEPS) + rand_case(rng, w) + rng.choice(SEPS) + num(v.post, True)
+    if v.dev is not None:
+        s += rng.choice(SEPS) + rand_case(rng, "dev") + rng.choice(SEPS) + num(v.dev, True)
+    if v.local is not None:
+        segs = [num(x, False) if isinstance(x, int) else rand_case(rng, x) for x in v.local]
+        s += "+" + segs[0] + "".join(rng.choice([".", "-", "_"]) + g for g in segs[1:])
+    if ws: s += rand_ws(rng)
+    return s
+
+
+def rel_of(v1, v2):
+    """'<', '=' or '>' by the independent reference order `rank`"""
+    a, b = rank(v1), rank(v2)
+    return "<" if a < b else ">" if a > b else "="
+
+
+def reading(v):
+    """the PEP 440 reading of the structured version, as JSON-able dict (oracle for law.v.reading; independent of model and implementation)"""
+    rel = list(v.release)
+    pub = replace(v, local=None)
+    return {"str": vstr(v), "epoch": v.epoch, "release": rel, "pre": list(v.pre) if v.pre else None, "post": v.post, "dev": v.dev,
+            "local": None if v.local is None else ".".join(map(str, v.local)),
+            "public": vstr(pub), "base": vstr(V(v.epoch, v.release, None, None, None, None)),
+            "is_pre": v.pre is not None or v.dev is not None, "is_post": v.post is not None, "is_dev": v.dev is not None,
+            "major": rel[0], "minor": rel[1] if len(rel) > 1 else 0, "micro": rel[2] if len(rel) > 2 else 0}
